@@ -73,8 +73,9 @@ fn tamper_hash(p: &mut Prng, w: &mut World, slot: &str, kind: &str) {
             w.exec(json!({"op":"fault","slot":slot,"kind":"replace","hex":hex::encode(p.bytes(32))}));
         }
         _ => {
-            // for hashes the third kind is the other confirmation value's tag confusion: all-zero
-            w.exec(json!({"op":"fault","slot":slot,"kind":"replace","hex":hex::encode([0u8; 32])}));
+            // for hashes the third kind is a two-byte fault whose differences cancel under folding
+            let (a, b) = (p.range(0, 15), p.range(16, 31));
+            w.exec(json!({"op":"fault","slot":slot,"kind":"xorpair","pos1":a,"pos2":b,"val":1u8 << p.below(8)}));
         }
     }
 }
